@@ -362,7 +362,7 @@ Definition lua_result (st0 : state) (code : list ir) (res : SyltSem.run_result) 
     | _ => exists v, r = RErr v st
     end.
 
-Definition world0 : world := mkWorld (fun _ _ => False) (fun _ _ _ => False) (fun _ => False) (fun _ _ => False) 0%nat.
+Definition world0 : world := mkWorld (fun _ _ _ => False) (fun _ _ _ => False) (fun _ => False) (fun _ _ => False) 0%nat.
 
 Lemma program_sim k r code n res st0 :
   linv st0 -> s_out st0 = [] -> (forall v, raw_get (get_table st0 globals_id) (VStr (fmt_var v)) = VNil) ->
@@ -436,11 +436,11 @@ Proof.
     - exact (eq_sym Hout0).
     - exact Hlin1.
     - constructor; cbn [world0 w_R w_F w_D w_P w_pc].
-      + intros c p [].
-      + intros c p p' [].
-      + intros c c' p [].
-      + intros c p [].
-      + intros c p lv [].
+      + intros c p b [].
+      + intros c p p' b b' [].
+      + intros c c' p b b' [].
+      + intros c p b [].
+      + intros c p b lv [].
       + intros c p d [].
       + intros c p d lv [].
       + intros c p d p' d' [].
@@ -480,7 +480,7 @@ Proof.
   destruct (Hemit bg lg Hsg Hsb) as (Hcode & Hnlp).
   unfold lua_result. fold code. rewrite Hcode.
   (* the call of start *)
-  destruct (r_fund _ _ _ _ _ _ _ _ _ _ _ s _ Hrelg Hars) as (cf & pf & d & Hlks & Hnth & HlkL & Hcell & Hd & Hdk).
+  destruct (r_fund _ _ _ _ _ _ _ _ _ _ _ s _ Hrelg Hars ltac:(discriminate)) as (cf & pf & d & Hlks & Hnth & HlkL & Hcell & Hd & Hdk).
   assert (Hpk : fd_pk d = []) by (unfold dkind in Hdk; inversion Hdk; reflexivity).
   assert (Hbind : SyltSem.bind (SyltSem.read_cell cf) (fun fv => SyltSem.apply (S (S f')) fv []) stg =
                   SyltSem.apply (S (S f')) (SyltSem.SClos (fd_ci d)) [] stg)
